@@ -2976,6 +2976,17 @@ impl Block {
             }
 
             //
+            // the block id continues the previous block's
+            //
+            if previous_block.id.checked_add(1) != Some(self.id) {
+                error!(
+                    "ERROR 581023: block id : {:?} does not follow the id of its previous block : {:?}",
+                    self.id, previous_block.id
+                );
+                return false;
+            }
+
+            //
             // treasury
             //
             let mut expected_treasury = previous_block.treasury;
